@@ -309,7 +309,7 @@ fn run_case(lib: &Lib, id: &Value, name: &str, args: &[Value], pred: &Value, is_
         }
     }
     if k(&p_out) == "value" && k(&h_out) == "value" && strip_tags(&p_out["v"]) != strip_tags(&h_out["v"])
-        && !(name.starts_with("std.io.") || name.starts_with("std.fs.")) {
+        && !(name.starts_with("std.io.") || name.starts_with("std.fs.") || name == "std.convert.to_string") {
         mm.push("routes", json!({"id": id, "name": name, "program": text, "args": args, "prog": p_out["v"], "host": h_out["v"]}));
     }
     if samples.len() < 4 && k(pred) == "exact" && id.as_u64().unwrap_or(0) % 577 == 3 {
@@ -490,7 +490,11 @@ fn random(table_path: &str, n: usize, obs_path: &str, summary: &str, scratch: &s
         }
         let id = json!(format!("r{i}"));
         let route_host = rng.chance(1, 2);
-        let (out, text) = if route_host { (lib.call_host(name, &args, false), String::new()) } else { lib.call_prog(name, &args, false) };
+        let (out, text) = if route_host {
+            let mut b = vec![];
+            let text = format!("{name}({})", args.iter().map(|a| render(a, &mut b)).collect::<Vec<_>>().join(", "));
+            (lib.call_host(name, &args, false), text)
+        } else { lib.call_prog(name, &args, false) };
         calls += 1;
         if k(&out) != "value" {
             mm.push(k(&out), json!({"id": id, "name": name, "route": if route_host { "host" } else { "prog" },
@@ -702,62 +706,128 @@ impl FsRun<'_> {
         out
     }
 
-    /// replay one behaviour from initial tree `ini`; returns false on the first disagreement
+    /// execute call seq[step] in the real tree (which equals `state`) and compare with the
+    /// specification's transition; false on disagreement
+    #[allow(clippy::too_many_arguments)]
+    fn step(&mut self, ini: usize, seq: &[usize], step: usize, state: &Value, ok: bool, ret: &str, after: &Value, route: u64) -> bool {
+        let model = self.model;
+        let ci = seq[step];
+        let out = self.exec(ci, route);
+        self.calls += 1;
+        let class = if k(&out) != "value" { k(&out).to_string() } else {
+            match k(&out["v"]) {
+                "void" => "void".to_string(),
+                "string" => cps_string(&out["v"]),
+                "struct" => "err".to_string(),
+                other => format!("unexpected {other}"),
+            }
+        };
+        let mut tree = vec![];
+        walk(&self.root, "", &mut tree);
+        let tree = Value::Array(tree);
+        let expected_class = if ok { ret.to_string() } else { "err".to_string() };
+        if class != expected_class || tree != *after {
+            let calls_txt: Vec<String> = seq[..=step].iter().map(|&c| self.call_text(&model.calls[c]).0).collect();
+            self.mm.push(if class != expected_class { "fs_result" } else { "fs_state" }, json!({
+                "initial_tree": model.inits[ini]["s"], "calls": calls_txt, "failing_step": step + 1,
+                "f": model.calls[ci]["f"], "p": model.calls[ci]["p"], "q": model.calls[ci]["q"],
+                "route": if route == 0 { "prog" } else { "host" },
+                "tree_before": state, "expected": {"ok": ok, "returns": expected_class, "tree": after},
+                "observed": {"returns": class, "raw": out, "tree": tree}}));
+            return false;
+        }
+        if ok { self.ok_calls += 1; }
+        if self.samples.len() < 3 && ok && step == 1 && self.behaviours % 997 == 5 {
+            let calls_txt: Vec<String> = seq[..=step].iter().map(|&c| self.call_text(&model.calls[c]).0).collect();
+            self.samples.push(json!({"initial_tree": model.inits[ini]["s"], "calls": calls_txt, "tree_after_step_2": after}));
+        }
+        true
+    }
+
+    /// replay one whole behaviour from a freshly established initial tree
     fn behaviour(&mut self, ini: usize, seq: &[usize]) -> bool {
         let model = self.model;
         let mut state = model.inits[ini]["s"].clone();
         setup(&self.root, &state);
         self.behaviours += 1;
         self.counter += 1;
-        for (step, &ci) in seq.iter().enumerate() {
+        for step in 0..seq.len() {
             let Some(trans) = model.next.get(&state.to_string()) else { panic!("harness: tree not in the emitted graph: {state}") };
-            let (ok, ret, after) = &trans[ci];
+            let (ok, ret, after) = trans[seq[step]].clone();
             let route = (self.counter + step as u64) % 2;
-            let out = self.exec(ci, route);
-            self.calls += 1;
-            let class = if k(&out) != "value" { k(&out).to_string() } else {
-                match k(&out["v"]) {
-                    "void" => "void".to_string(),
-                    "string" => cps_string(&out["v"]),
-                    "struct" => "err".to_string(),
-                    other => format!("unexpected {other}"),
-                }
-            };
-            let mut tree = vec![];
-            walk(&self.root, "", &mut tree);
-            let tree = Value::Array(tree);
-            let expected_class = if *ok { ret.clone() } else { "err".to_string() };
-            if class != expected_class || tree != *after {
-                let calls_txt: Vec<String> = seq.iter().map(|&c| self.call_text(&model.calls[c]).0).collect();
-                self.mm.push(if class != expected_class { "fs_result" } else { "fs_state" }, json!({
-                    "initial_tree": model.inits[ini]["s"], "calls": calls_txt, "failing_step": step + 1,
-                    "f": model.calls[ci]["f"], "p": model.calls[ci]["p"], "q": model.calls[ci]["q"],
-                    "route": if route == 0 { "prog" } else { "host" },
-                    "tree_before": state, "expected": {"ok": ok, "returns": expected_class, "tree": after},
-                    "observed": {"returns": class, "raw": out, "tree": tree}}));
+            if !self.step(ini, seq, step, &state, ok, &ret, &after, route) {
                 return false;
             }
-            if *ok { self.ok_calls += 1; }
-            if self.samples.len() < 3 && *ok && step == 1 && self.behaviours % 997 == 5 {
-                let calls_txt: Vec<String> = seq.iter().map(|&c| self.call_text(&model.calls[c]).0).collect();
-                self.samples.push(json!({"initial_tree": model.inits[ini]["s"], "calls": calls_txt, "tree_after_step_2": after}));
-            }
-            state = after.clone();
+            state = after;
         }
         true
     }
 
-    fn all(&mut self, ini: usize, prefix: &mut Vec<usize>, depth: usize) {
-        if prefix.len() == depth {
-            return;
-        }
-        for ci in 0..self.model.calls.len() {
+    /// Depth-first over every call sequence of length <= depth from initial tree `ini`.
+    /// Precondition and postcondition: the real tree equals `state`.  Every sequence is executed
+    /// exactly once, as the extension of its prefix: its last call runs in the real tree that the
+    /// prefix produced (after a successful extension the harness puts the differing sub-trees back
+    /// and verifies by a walk that the tree equals `state` again).
+    fn explore(&mut self, ini: usize, state: &Value, prefix: &mut Vec<usize>, depth: usize) {
+        let model = self.model;
+        let Some(trans) = model.next.get(&state.to_string()) else { panic!("harness: tree not in the emitted graph: {state}") };
+        for ci in 0..model.calls.len() {
             prefix.push(ci);
-            self.behaviour(ini, prefix);
-            let p2 = prefix.clone();
-            let mut p2 = p2;
-            self.all(ini, &mut p2, depth);
+            let (ok, ret, after) = &trans[ci];
+            self.counter += 1;
+            self.behaviours += 1;
+            let route = self.counter % 2;
+            let agreed = self.step(ini, prefix, prefix.len() - 1, state, *ok, ret, after, route);
+            if agreed {
+                if prefix.len() < depth {
+                    self.explore(ini, after, prefix, depth);
+                }
+                if after != state {
+                    self.restore(after, state);
+                }
+            } else {
+                setup(&self.root, state);
+            }
             prefix.pop();
+        }
+    }
+
+    /// put back the top-level entries whose sub-trees differ; verify
+    fn restore(&mut self, cur: &Value, target: &Value) {
+        let sub = |flat: &Value, name: &str| -> Vec<Value> {
+            flat.as_array().unwrap().iter().filter(|it| {
+                let p = it["p"].as_str().unwrap();
+                p == name || p.starts_with(&format!("{name}/"))
+            }).cloned().collect()
+        };
+        let mut names: Vec<String> = cur.as_array().unwrap().iter().chain(target.as_array().unwrap())
+            .map(|it| it["p"].as_str().unwrap().split('/').next().unwrap().to_string()).collect();
+        names.sort();
+        names.dedup();
+        for name in names {
+            let (a, b) = (sub(cur, &name), sub(target, &name));
+            if a == b {
+                continue;
+            }
+            let full = self.root.join(&name);
+            if !a.is_empty() {
+                unlock(&full);
+                if full.is_dir() { fs::remove_dir_all(&full).unwrap() } else { fs::remove_file(&full).unwrap() }
+            }
+            for it in &b {
+                let p = self.root.join(it["p"].as_str().unwrap());
+                if it["k"] == "dir" { fs::create_dir(&p).unwrap() } else { fs::write(&p, content_bytes(it["c"].as_str().unwrap())).unwrap() }
+            }
+            for it in b.iter().rev() {
+                if it["k"] == "dir" && it["ro"] == true {
+                    fs::set_permissions(self.root.join(it["p"].as_str().unwrap()), fs::Permissions::from_mode(0o555)).unwrap();
+                }
+            }
+        }
+        let mut tree = vec![];
+        walk(&self.root, "", &mut tree);
+        if Value::Array(tree) != *target {
+            panic!("harness: could not restore the tree {target}");
         }
     }
 }
@@ -781,7 +851,9 @@ fn fs_mode(dir: &str, scratch: &str, obs_path: &str, summary: &str, depth: usize
             if has_ro { skipped_ro += 1; }
             continue;
         }
-        run.all(ini, &mut vec![], depth);
+        let s0 = model.inits[ini]["s"].clone();
+        setup(&root, &s0);
+        run.explore(ini, &s0, &mut vec![], depth);
         for _ in 0..sample3 {
             let seq: Vec<usize> = (0..depth + 1).map(|_| rng.below(ncalls)).collect();
             run.behaviour(ini, &seq);
@@ -794,7 +866,7 @@ fn fs_mode(dir: &str, scratch: &str, obs_path: &str, summary: &str, depth: usize
     write_lines(obs_path, &obs);
     write_json(summary, &json!({"behaviours": run.behaviours, "calls": run.calls, "successful_calls": run.ok_calls,
         "permissions_enforced": enforced, "initial_trees_skipped_unwritable": skipped_ro, "distinct_results": obs.len(),
-        "uid_is_root": !enforced, "mismatch_counts": run.mm.counts(), "mismatches": run.mm.items(), "samples": run.samples}));
+        "mismatch_counts": run.mm.counts(), "mismatches": run.mm.items(), "samples": run.samples}));
     json!({"done": "fs"})
 }
 
